@@ -90,6 +90,11 @@ func verifPark(c *sync.Cond, k int) {
 	}
 }
 
+// verifWatch / verifWatchHits: lock discipline, decided by the engine only (it sees every memory access):
+// while watching, every read or write of a data field of *r must happen with r.mutex held. Natively no-ops.
+func verifWatch(r *Ring, mu *sync.Mutex, on bool) {}
+func verifWatchHits() int                        { return 1 }
+
 func verifStillParked(c *sync.Cond) int { return condWaiters(c) }
 
 func verifUnpark(c *sync.Cond) { c.Broadcast() }
